@@ -297,6 +297,45 @@ def user_expr_name_grid(ck, tier):
     ck.notes["user_expr_name_grid"] = {"programs": len(progs), "failing": len(bad)}
 
 
+# well-known std type names defined by the USER (a different type all the same) and used as field types of a generic item: the generated
+# bounds and bodies must treat them like any other type
+USER_TYPE_NAMES = ["PhantomData", "PhantomPinned", "Option", "Vec", "Box", "Rc", "Arc", "Cell", "RefCell", "Result", "Cow", "Wrapping", "Reverse", "ManuallyDrop",
+                   "String", "Ordering", "Pin", "NonNull", "Sized", "Unsized", "str", "Self_", "Infallible"]
+
+
+def user_type_name_grid(ck, tier):
+    progs = []
+    all9 = ["Clone", "Debug", "Default", "PartialEq", "Eq", "PartialOrd", "Ord", "Hash"]
+    for nm in USER_TYPE_NAMES:
+        if nm in ("str",):
+            continue
+        decl = "#[derive(Clone, Debug, Default, PartialEq, Eq, PartialOrd, Ord, Hash)] pub struct %s<T>(pub T);" % nm
+        for entry in ("attr", "derive"):
+            head = rf.derive_head(all9, entry)
+            ehead = rf.derive_head(["Clone", "Debug", "PartialEq", "Eq", "PartialOrd", "Ord", "Hash"], entry)
+            progs.append("#![allow(dead_code, non_camel_case_types)]\npub mod m { %s\n%s pub struct X<G>(pub %s<G>, pub ::core::option::Option<%s<G>>, pub u8);\n"
+                         "%s pub enum E<G, H_> { A(%s<(G, H_)>), B { x: [%s<G>; 2] }, C }\n"
+                         "pub fn use_them() -> bool { let x = X(%s(1u8), ::core::option::Option::None, 2); let y = ::core::clone::Clone::clone(&x); x == y && E::<u8, u8>::C == E::C }\n}\n"
+                         % (decl, head, nm, nm, ehead, nm, nm, nm))
+    wd = os.path.join(dx.WORK, "c13ut-%d" % os.getpid())
+
+    def comp(ix):
+        i, src = ix
+        ok, diags = dx.check_only("v%d" % i, src, wd)
+        return ok, dx.diag_summary(diags)[:3]
+    res = dx.pmap(comp, list(enumerate(progs)))
+    import shutil
+    shutil.rmtree(wd, ignore_errors=True)
+    events = [{"ev": "compiles", "rustc_ok": ok} for ok, _ in res]
+    n, bad, jst = dx.tlc_judge("Trace_Bounds", "Trace_Bounds.cfg", events, "c13ut")
+    ck.add_judge(n, jst)
+    names = [nm for nm in USER_TYPE_NAMES if nm != "str"]
+    for i in bad:
+        ck.violation({"family": "user_type_name", "scheme": "prelude", "name": names[i // 2], "codes": ",".join(sorted(set(d.get("code") or "?" for d in res[i][1])))},
+                     {"what": "a user type with a well-known name, used as a field type of a generic item, is not treated like any other type", "source": progs[i], "diagnostics": res[i][1]})
+    ck.notes["user_type_name_grid"] = {"programs": len(progs), "failing": len(bad)}
+
+
 PRIMS = set("bool char str u8 u16 u32 u64 u128 usize i8 i16 i32 i64 i128 isize f32 f64 core std alloc crate".split())
 
 
@@ -349,6 +388,7 @@ def c13(tier):
     const_param_grid(ck, tier)
     type_name_grid(ck, tier, auto)
     user_expr_name_grid(ck, tier)
+    user_type_name_grid(ck, tier)
     ck.cov["evaluations"] = ck.cov["traces_validated_against_impl"]
     ck.cov["distinct_nontrivial"] = len(ck.notes.get("events_per_family", {}))
     ck.cov["rule"] = ("every run-time family (clone, struct operators, impl operators, debug, default, deref, comparison sample) re-run under 4 renaming schemes "
